@@ -16,7 +16,7 @@ BOUNDS = 'every payload (all 20/32/33/48/64/96/4 bytes symbolic) of every kind; 
 OUTSIDE = ['symbolic entrypoint text', 'Base58Check itself (C09)']
 ASSUMPTIONS = ['a typed signature (edsig/spsig/p2sig) read back from bytes may come back in generic `sig` form: only the signature bytes are required to survive']
 
-ENTRYPOINTS = [None, 'default', 'a', 'do', 'default_admin', 'set_default', 'e' * 31]
+ENTRYPOINTS = [None, 'default', 'a', 'do', 'default_admin', 'set_default', 'e' * 31, 'a%b', 'x.y@z']
 
 # kind -> (human prefix, michelson type)
 ADDRESS_KINDS = ['tz1', 'tz2', 'tz3', 'tz4', 'KT1', 'sr1']
@@ -178,7 +178,7 @@ def sym_roundtrip(P, ex):
         Pb, nn, rec = b.recorded[-1]
         ex.check(rec == payload, 'payload bytes survive')
         exp_ep = ep if ep and ep != 'default' else None
-        got_ep = back.value.split('%')[1] if '%' in back.value else None
+        got_ep = back.value.split('%', 1)[1] if '%' in back.value else None
         ex.check(got_ep == exp_ep, f'entrypoint {exp_ep} read back as {got_ep}')
         if P.get('blind') and not exp_ep:
             import pytezos.michelson.micheline as MM
